@@ -34,7 +34,32 @@ const UNI_POOL: &[char] = &[
 ];
 const CTRL_POOL: &[char] = &['\t', '\n', '\r', '\x01', '\x1b', '\x7f', '\x08', '\x0b'];
 
+thread_local! {
+    static NASTY: std::cell::Cell<bool> = const { std::cell::Cell::new(false) };
+    static TAME_KEYS: std::cell::Cell<bool> = const { std::cell::Cell::new(false) };
+}
+
+/// While set, map keys generated for server states are identifier-like words
+/// starting with a letter (valid XML names).
+pub fn set_tame_keys(on: bool) { TAME_KEYS.with(|c| c.set(on)); }
+
+pub fn tame_keys() -> bool { TAME_KEYS.with(std::cell::Cell::get) }
+
+/// A map key (rule name, variable name): any string, or a plain word in tame mode.
+pub fn key_string(t: &mut Tape, o: &StrOpts) -> String {
+    if tame_keys() {
+        word(t, 12)
+    } else {
+        string(t, o)
+    }
+}
+
+/// While set, every generated string may also contain control characters
+/// (markup characters and non-ASCII code points are always in the alphabet).
+pub fn set_nasty_strings(on: bool) { NASTY.with(|c| c.set(on)); }
+
 pub fn string(t: &mut Tape, o: &StrOpts) -> String {
+    let nasty = NASTY.with(std::cell::Cell::get);
     // length: biased to short; 0 on the tape -> min_len
     let span = (o.max_len - o.min_len) as u64;
     let sel = t.draw(DATA, 8);
@@ -52,7 +77,7 @@ pub fn string(t: &mut Tape, o: &StrOpts) -> String {
         let k = t.draw(DATA, 16);
         let c = if k >= 14 && o.unicode {
             UNI_POOL[t.draw(DATA, UNI_POOL.len() as u64) as usize]
-        } else if k == 13 && o.control {
+        } else if k == 13 && (o.control || nasty) && !tame_keys() {
             CTRL_POOL[t.draw(DATA, CTRL_POOL.len() as u64) as usize]
         } else {
             ASCII_POOL[t.draw(DATA, ASCII_POOL.len() as u64) as usize] as char
@@ -69,9 +94,14 @@ pub fn string(t: &mut Tape, o: &StrOpts) -> String {
 /// A short identifier-like word (keys, names that must be unique).
 pub fn word(t: &mut Tape, max_len: usize) -> String {
     let len = 1 + t.draw(DATA, max_len as u64) as usize;
-    (0 .. len)
+    let w: String = (0 .. len)
         .map(|_| b"abcdefghijklmnopqrstuvwxyzABCXYZ0123456789"[t.draw(DATA, 42) as usize] as char)
-        .collect()
+        .collect();
+    if tame_keys() && w.starts_with(|c: char| c.is_ascii_digit()) {
+        format!("k{w}")
+    } else {
+        w
+    }
 }
 
 pub fn u8_(t: &mut Tape) -> u8 {
